@@ -136,6 +136,7 @@ def run():
     from props import _sym as _symmod
     from props._util import section as _section
     _section(rep, "dataset", lambda: _symmod.dataset_section(rep))
+    _section(rep, "getters", lambda: _symmod.public_getters_section(rep))
     return rep
 
 
@@ -162,6 +163,13 @@ def replay(ob):
             extras.append([(li, 29, P1), (lj, 47, P2)])
             extras.append([(li, 47, P1), (lj, 29, P2)])
         INFO0, WY0, NZ0 = tabvc.load_tables()
+        if "sg" in w and sg == w["sg"]:
+            extras += [[(l, 29, P1)] for l in L[2:-1]]
+            # a low letter decides which normalizer is applied, a later letter shows whether its relabelling is right
+            for li in L[:4]:
+                for lk in L[4:-1][:10]:
+                    extras.append([(li, 47, P1), (lk, 29, P2)])
+                    extras.append([(li, 29, P1), (lk, 47, P2)])
         for lf in [l for l in L[:-1] if WY0[sg][l].get("variables")][:3]:
             extras.append([(lf, 29, P1), (lf, 29, P2)])
         # every occupancy as given, and the single-letter ones also as an anisotropic supercell (a cell whose lattice has lost point operations)
